@@ -177,8 +177,11 @@ class Check:
         self.evaluations += queries
         self.solver_s += solver_s
         for (_, key, text) in self.known:
-            if key == signature:
-                self.known_hits.append((signature, text or desc))
+            # key is a regular expression (no blanks; use \s) that must match the whole signature of the failing input / call site
+            if key == signature or re.fullmatch(key, signature):
+                if key not in [k for k, _ in self.known_hits]:
+                    self.known_hits.append((key, text or desc))
+                self.known_instances = getattr(self, 'known_instances', 0) + 1
                 return
         h = hashlib.sha1((self.pid + signature).encode()).hexdigest()[:10]
         path = os.path.join(REPLAYS, '%s_%s.json' % (self.pid, h))
@@ -205,6 +208,7 @@ class Check:
             'bounds': self.bounds,
             'solver_seconds': round(self.solver_s, 3),
             'known_findings_hit': [k[0] for k in self.known_hits],
+            'known_finding_instances': getattr(self, 'known_instances', 0),
             'machinery_errors': self.errors[:20],
             'trusted_base': trusted or [],
             'exhaustive': False,
@@ -216,9 +220,11 @@ class Check:
             json.dump(ev, f, indent=1, default=str)
         for sig, text in self.known_hits:
             print('KNOWN-FINDING: property=%s %s [%s]' % (self.pid, text, sig))
-        for sig, desc, path in self.violations:
+        for sig, desc, path in self.violations[:8]:
             print('VIOLATION property=%s replay=%s' % (self.pid, path))
-            print('  ' + desc)
+            print('  ' + desc[:600])
+        if len(self.violations) > 8:
+            print('... %d more violations (all replay files are under %s)' % (len(self.violations) - 8, REPLAYS))
         print('%s tier=%s obligations=%d discharged=%d inconclusive=%d violations=%d known=%d queries=%d solver=%.1fs wall=%.1fs' % (
             self.pid, self.tier, self.obligations, self.discharged, len(self.inconclusive), len(self.violations), len(self.known_hits), self.evaluations, self.solver_s, wall))
         if self.violations:
